@@ -445,6 +445,30 @@ def scan_globals():
     return bad
 
 
+def harvest_literals():
+    """every integer literal of the non-test library source (a dictionary of 'interesting' values for the generators:
+    ids, lengths and counts are drawn from these and their neighbours, so that a constant introduced by an edit is
+    exercised without anybody having to think of it)"""
+    vals = set()
+    for root, _, files in os.walk(SRC):
+        for fn in files:
+            if not fn.endswith(".rs") or fn == "tests.rs":
+                continue
+            txt = strip_comments(open(os.path.join(root, fn)).read())
+            txt = re.sub(r"#\[cfg\(test\)\].*", "", txt, flags=re.S)          # drop trailing test modules
+            if fn in ("protocol.rs", "v9_lookup.rs", "ipfix_lookup.rs"):
+                continue                                                     # pure tables: thousands of literals, all covered by the table items
+            for m in re.finditer(r"(?<![A-Za-z0-9_.])(0x[0-9a-fA-F_]+|\d[\d_]*)(?:_?(?:u8|u16|u32|u64|u128|usize|i32|i64))?(?![A-Za-z0-9_.])", txt):
+                t = m.group(1).replace("_", "")
+                try:
+                    v = int(t, 16) if t.startswith("0x") else int(t)
+                except ValueError:
+                    continue
+                if v < 2 ** 64:
+                    vals.add(v)
+    return sorted(vals)
+
+
 def lean_list(items):
     return "[" + ", ".join(items) + "]"
 
@@ -715,6 +739,12 @@ def main():
             f.write(text)
     if os.environ.get("NF_WRITE_SNAPSHOT") == "1" and not problems:
         json.dump(norm, open(snap, "w"), indent=0, sort_keys=True)
+    try:
+        lits = harvest_literals()
+        json.dump(lits, open(os.path.join(os.path.dirname(os.path.abspath(__file__)), "..", "work", "literals.json"), "w"))
+        summary["literals"] = len(lits)
+    except Exception as e:
+        summary["literals_error"] = repr(e)
     summary["changed"] = old_text != text
     summary["items"] = sorted(out.keys())
     print(json.dumps(summary))
